@@ -1,6 +1,7 @@
 package main
 
 import (
+	"strings"
 	"fmt"
 	"sort"
 	"time"
@@ -101,6 +102,9 @@ func init() {
 			for k := 0; k < n; k++ {
 				conf := eval.NewConfig()
 				conf.OperatorMap["c_id"] = func(_ *eval.Ctx, p []eval.Value) (eval.Value, error) { return p[0], nil }
+				conf.OperatorMap["c_pair"] = func(_ *eval.Ctx, p []eval.Value) (eval.Value, error) {
+					return fmt.Sprintf("[%v/<nil> %v/<nil>]", p[0], p[1]), nil
+				}
 				// pre-populated map
 				var pre []nk
 				used := map[int16]bool{}
@@ -209,6 +213,7 @@ func init() {
 				}
 				// reads
 				var reads []string
+				single := map[string]string{}
 				var ctx *eval.Ctx
 				var cpan interface{}
 				guarded(map[string]interface{}{"call": "NewCtxFromVars", "key_map": fmt.Sprint(conf.VariableKeyMap), "values": fmt.Sprint(vals)}, func() {
@@ -237,6 +242,31 @@ func init() {
 						v, er = e.Eval(ctx)
 					})
 					reads = append(reads, fmt.Sprintf("(%s, %s)", coqStr(nme), coqRes(v, er)))
+					single[nme] = fmt.Sprintf("%v/%v", v, er)
+				}
+				// two variables read by ONE two-operand operator (a fast operator under the default optimisations):
+				// each operand must be the value its own name is bound to, in every key layout and in undefined mode
+				for j := 0; j+1 < len(bnames) && j < 6; j++ {
+					a, bn := bnames[j], bnames[j+1]
+					e, err, pan := compileSafe(conf, "(c_pair "+a+" "+bn+")")
+					if pan != nil || err != nil {
+						continue
+					}
+					var v eval.Value
+					var er error
+					guarded(map[string]interface{}{"call": "Eval", "variables": a + " " + bn}, func() {
+						defer func() {
+							if p := recover(); p != nil {
+								er = fmt.Errorf("panic: %v", p)
+							}
+						}()
+						v, er = e.Eval(ctx)
+					})
+					want := "[" + single[a] + " " + single[bn] + "]/<nil>"
+					if got := fmt.Sprintf("%v/%v", v, er); got != want && !strings.Contains(single[a]+single[bn], "/variableKey") {
+						c.Direct = append(c.Direct, DirectViolation{What: "two variables read by one two-operand operator do not have the values each of them has when read alone", Sig: "c11-pair",
+							Sample: map[string]interface{}{"expression": "(c_pair " + a + " " + bn + ")", "got": got, "each_alone": want, "key_map": fmt.Sprint(conf.VariableKeyMap), "undefined_mode": undefined}})
+					}
 				}
 				term := fmt.Sprintf("{| vc_pre := %s; vc_names := %s; vc_keys := %s; vc_exact := %s; vc_final := %s; vc_undefined := %s; vc_bind := %s; vc_reads := %s |}",
 					kmCoq(pre), coqStrList(names), coqZList(keys), coqBool(exact), kmCoq(final), coqBool(undefined), coqList(bindCoq), coqList(reads))
